@@ -3,7 +3,8 @@
      lower   -> `ok <final domains> ; <pspec> ; ...` | `err <variant>` | `PANIC`
      msolve  -> `<model> ||| [BAD:<class> ]<spec>`
                 model = solution set predicted by the exact characterisation `impl_cons` (what the
-                        lowering enforces), spec = brute force of `eval_cons` over the declared domains
+                        lowering enforces; = `holds` since the repair of D3: LowerProofs.impl_holds),
+                        spec = brute force of `eval_cons` over the declared domains
      mspell  -> every alternative's predicted set ` / `-joined ||| spec of the first alternative *)
 open Selen_model
 open Conv
@@ -151,6 +152,15 @@ let fmt_pdesc (p : pdesc) : string =
   | PLinEq (cs, xs, k) -> lin "lineq" cs xs k
   | PLinLe (cs, xs, k) -> lin "linle" cs xs k
   | PLinNe (cs, xs, k) -> lin "linne" cs xs k
+  (* the reified lowering of Or / Not (Lower.reify): same spelling as the posting routes' dump (mroutes) *)
+  | PCmpR (op, x, y, b) ->
+    Printf.sprintf "%s %s %s %s" (match op with OEq -> "eqr" | ONe -> "ner" | OLt -> "ltr" | OLe -> "ler" | OGt -> "gtr" | OGe -> "ger") (xv x) (xv y) (xv b)
+  | PLinEqR (cs, xs, k, b) -> lin "lineqr" cs xs k ^ " " ^ xv b
+  | PLinLeR (cs, xs, k, b) -> lin "linler" cs xs k ^ " " ^ xv b
+  | PLinNeR (cs, xs, k, b) -> lin "linner" cs xs k ^ " " ^ xv b
+  | PAndR (xs, r) -> Printf.sprintf "band %s %s" (dash (List.map xv xs)) (xv r)
+  | POrR (xs, r) -> Printf.sprintf "bor %s %s" (dash (List.map xv xs)) (xv r)
+  | PNotR (o, r) -> Printf.sprintf "bnot %s %s" (xv o) (xv r)
 
 let run_lower (line : string) : string =
   let c = parse_case line in
@@ -232,9 +242,8 @@ let known_class (prog : stmt list) : string =
   let aux_oversize s = List.exists (fun (i, d) -> d = [] && not (List.mem i users)) (List.mapi (fun i d -> (i, d)) s) in
   if lowered = LPanic then "BAD:empty_domain_panic "
   else if (match lowered with LOk (s, ps) -> validate s ps = Some EInvalidDomain && aux_oversize s | LPanic -> false) then "BAD:oversize_domain "
-  else if List.exists (fun c -> kf_or_not (fold_cons c)) cs then "BAD:or_not "
   else if (match lowered with LOk (s, ps) -> validate s ps = Some EInvalidConstraint | LPanic -> false) then "BAD:mod_rejected "
-  else if low_has (function PLinEq (c, x, _) | PLinLe (c, x, _) -> all_zero c x | _ -> false) then "BAD:lin_zero_coeffs "
+  else if low_has (function PLinEq (c, x, _) | PLinLe (c, x, _) | PLinEqR (c, x, _, _) | PLinLeR (c, x, _, _) | PLinNeR (c, x, _, _) -> all_zero c x | _ -> false) then "BAD:lin_zero_coeffs "
   else if (match lowered with LOk (s, ps) -> List.exists (mod_sign_risk s) ps | LPanic -> false) then "BAD:modulo_prop "
   else ""
 
@@ -246,7 +255,7 @@ let model_part (prog : stmt list) : string =
   | LPanic -> "PANIC"
   | LOk (s, ps) ->
     if validate s ps <> None then "sols -"
-    else if List.exists (function PLinEq (c, x, _) | PLinLe (c, x, _) -> all_zero c x | _ -> false) ps then "-"
+    else if List.exists (function PLinEq (c, x, _) | PLinLe (c, x, _) | PLinEqR (c, x, _, _) | PLinLeR (c, x, _, _) | PLinNeR (c, x, _, _) -> all_zero c x | _ -> false) ps then "-"
     else if List.exists (mod_sign_risk s) ps then "-"
     else "sols " ^ fmt_sols (impl_set prog)
 
